@@ -97,7 +97,13 @@ func main() {
 	if p.Done != nil {
 		defer p.Done()
 	}
+	flushEach := os.Getenv("VERIF_FLUSH") == "1" // crash localisation: every line is written out before the next case starts
 	switch mode {
+	case "cases": // the generated cases only, not run
+		r := rand.New(rand.NewSource(*seed))
+		for _, c := range p.Gen(r, *n, *tier) {
+			fmt.Fprintf(w, "%s %s\n", id, c)
+		}
 	case "gen":
 		r := rand.New(rand.NewSource(*seed))
 		for _, c := range p.Gen(r, *n, *tier) {
@@ -117,6 +123,9 @@ func main() {
 			}
 			c := strings.TrimPrefix(line, id+" ")
 			fmt.Fprintf(w, "%s %s => %s\n", id, c, safeRun(p, c))
+			if flushEach {
+				w.Flush()
+			}
 		}
 	default:
 		fmt.Fprintln(os.Stderr, "unknown mode", mode)
